@@ -263,6 +263,57 @@ def scan_mutations(t):
     return out
 
 
+def scan_state(t):
+    """writes to instance state: (class, function, attribute) for every `self.<attr>` that a method assigns, subscript-assigns or
+    mutates in place — directly or through a local alias `x = self.<attr>` — and setattr(self, ...); plus memoised functions"""
+    out, memo = [], []
+    for n in t.body:
+        if isinstance(n, ast.FunctionDef):
+            for d in n.decorator_list:
+                if "cache" in ast.unparse(d):
+                    memo.append((n.name, len(n.args.args) + len(n.args.kwonlyargs)))
+    def selfattr(x):
+        while isinstance(x, ast.Subscript):
+            x = x.value
+        if isinstance(x, ast.Attribute) and isinstance(x.value, ast.Name) and x.value.id == "self":
+            return x.attr
+        return None
+    for cls in [n for n in ast.walk(t) if isinstance(n, ast.ClassDef)]:
+        for fn in [n for n in cls.body if isinstance(n, ast.FunctionDef)]:
+            for d in fn.decorator_list:
+                if "cache" in ast.unparse(d):
+                    memo.append((cls.name + "." + fn.name, len(fn.args.args)))
+            alias = {}
+            for n in ast.walk(fn):
+                if isinstance(n, ast.Assign) and len(n.targets) == 1 and isinstance(n.targets[0], ast.Name) and selfattr(n.value) and not isinstance(n.value, ast.Subscript):
+                    alias[n.targets[0].id] = selfattr(n.value)
+            def base_attr(x):
+                a = selfattr(x)
+                if a:
+                    return a
+                while isinstance(x, ast.Subscript):
+                    x = x.value
+                return alias.get(x.id) if isinstance(x, ast.Name) else None
+            w = set()
+            for n in ast.walk(fn):
+                tg = n.targets if isinstance(n, ast.Assign) else [n.target] if isinstance(n, (ast.AugAssign, ast.AnnAssign)) else []
+                for x in tg:
+                    if selfattr(x):
+                        w.add(selfattr(x))
+                    elif isinstance(x, ast.Subscript) and base_attr(x):
+                        w.add(base_attr(x))
+                if isinstance(n, ast.Call) and isinstance(n.func, ast.Attribute) and n.func.attr in MUT and base_attr(n.func.value):
+                    w.add(base_attr(n.func.value))
+                if isinstance(n, ast.Call) and isinstance(n.func, ast.Name) and n.func.id == "setattr" and n.args and isinstance(n.args[0], ast.Name) and n.args[0].id == "self":
+                    w.add("<setattr>")
+                if isinstance(n, ast.Delete):
+                    for x in n.targets:
+                        if base_attr(x):
+                            w.add(base_attr(x))
+            out += [(cls.name, fn.name, a) for a in sorted(w)]
+    return out, memo
+
+
 def translate():
     base = Path(REPO) / "sidemantic"
     trees, src_by_func = {}, {}
@@ -302,6 +353,16 @@ def translate():
         muts += [(rel,) + m for m in scan_mutations(t)]
     lines += ["", "/-- statements that write to an object reachable from the registered graph (self.* caches excluded) -/",
               "def mutationSites : List (String × String × Nat × String) := [" + ", ".join(f"({q(a)}, {q(b)}, {c}, {q(d)})" for a, b, c, d in muts) + "]"]
+    states, memos = [], []
+    for rel, t in trees.items():
+        st, me = scan_state(t)
+        states += [(rel,) + x for x in st]
+        memos += [(rel,) + x for x in me]
+    lines += ["", "/-- (module, class, method, attribute): every write of a method to its own instance state -/",
+              "def stateWrites : List (String × String × String × String) := [",
+              ",\n".join(f"  ({q(a)}, {q(b)}, {q(c)}, {q(d)})" for a, b, c, d in states) + "]",
+              "", "/-- (module, function, number of parameters) of memoised functions -/",
+              "def memoSites : List (String × String × Nat) := [" + ", ".join(f"({q(a)}, {q(b)}, {c})" for a, b, c in memos) + "]"]
     lines += ["", "/-- functions of the scanned modules annotated `-> set[...]` -/",
               "def setReturning : List String := [" + ", ".join(q(x) for x in sorted(setfuncs)) + "]", "", "end SideVerif.Gen", ""]
     changed = write_if_changed(LEAN / "SideVerif" / "Gen" / "OrderSites.lean", "\n".join(lines))
